@@ -40,6 +40,7 @@ def _c11_rest(ctx):
     ctx.run_rule(pair.rule_newdelete)
     ctx.run_rule(sib.rule_finish_siblings)
     ctx.run_rule(rec.rule_recognisers)
+    ctx.run_rule(rec.rule_stream_validators)
     ctx.run_rule(scratch_rule)
     ctx.run_rule(fin.rule_fin_c11)
     ctx.run_rule(pair.rule_no_use_after_handover)
@@ -53,6 +54,7 @@ def _c04(ctx):
     ctx.run_rule(lazy.rule_lazy_caches)
     ctx.run_rule(lazy.rule_lazy_preserve)
     ctx.run_rule(lazy.rule_lazy_latch)
+    ctx.run_rule(lazy.rule_lazy_conditional_fields)
     ctx.run_rule(scratch_rule)
     ctx.run_rule(pair.rule_shadow)
     ctx.run_rule(pair.rule_newdelete)
@@ -227,7 +229,7 @@ PROPS = {
                        "R-DEAD: status chains (fixed / constrained / free) have no dead branch. That re-adjustment of the exported file needs no iteration is not decided.",
     },
     "C15": {
-        "rules": [dim.rule_dim, pair.rule_memrep, step_rule, scratch_rule],
+        "rules": [dim.rule_dim, pair.rule_memrep, step_rule, scratch_rule, lazy.rule_lazy_conditional_fields],
         "explanation": "R-DIM: in every lib/matvec function touching elements of two or more operands a dimension comparison whose failing "
                        "branch throws Exception::BadRank (or a resize / a checking callee) dominates the first element access; R-PAIR P3: "
                        "MemRep's owning pointer comes only from new[], null or a moved-from rvalue, copies allocate and copy exactly the "
@@ -245,7 +247,7 @@ PROPS = {
     },
     "C19": {
         "rules": [tab.rule_g3_visitors, lazy.rule_lazy_chain, lazy.rule_lazy_adj, tab.rule_algorithms, fsm2.rule_dataparser,
-                  esc.rule_esc_g3, pair.rule_newdelete, dead.rule_dead_g3, step_rule, scratch_rule, tab.rule_who_depends, fin.rule_fin_c19, pair.rule_ownership_handover, pair.rule_no_use_after_handover],
+                  esc.rule_esc_g3, pair.rule_newdelete, dead.rule_dead_g3, step_rule, scratch_rule, tab.rule_who_depends, fin.rule_fin_c19, pair.rule_ownership_handover, pair.rule_no_use_after_handover, rec.rule_stream_validators],
         "explanation": "R-VIS V2 every g3 visitor covers all concrete g3 observation classes; R-LAZY stage chain of g3::Model and "
                        "typestate of Adj; R-TAB T1 algorithm names; R-FSM DataParser automaton (no silent error, absorbing error state, "
                        "depth discipline, init() role table verified against its body); R-ESC g3 writers; R-PAIR P2. R-DEAD for the parameter-status chains of g3. Adjusted "
